@@ -119,12 +119,10 @@ def step (st : State) (args : List String) : State × String :=
               runEvent st id s (.done sid resp) fun s s' => !(s'.undefined && !(s'.peerDecBroken && !s.peerDecBroken))
         | _ => (st, "bad-op")
       else if op == "cut" then
-        let (s', outs) := Server.step s .cut
-        (st.set id s', fmtOuts outs)
+        runEvent st id s .cut fun _ _ => true
       else if op == "idle" then
         if s.returned then (st, "out gone") else
-        let (s', outs) := Server.step s .idle
-        (st.set id s', fmtOuts outs)
+        runEvent st id s .idle fun _ _ => true
       else (st, "bad-op")
   | _ => (st, "bad-op")
 
